@@ -222,6 +222,11 @@ var runawayPrograms = []string{
 	"/d 0 def /f { /d d 1 add def true { f } 0 get if /d d 1 sub def } def f", "/f { true { f } 0 get if } def f", "/f { true { f } 0 get { } ifelse } def f",
 	"/f { false { } { f } 0 get ifelse 1 } def f", "/f { { f } 0 get loop } def f", "/f { 0 1 1 { f } 0 get for } def f", "/f { 1 { f } 0 get repeat 1 } def f",
 	"/f { { f } 0 get exec 1 } def f", "/g { f } 0 get def /f { true /g load if 1 } def f", "/a { true { b } 0 get if } def /b { true { a } 0 get if } def a",
+	// executable names whose value is again an executable name (a cycle of one, two, three names): every look-up is
+	// an operation and is stopped by the budget
+	"/a { a } 0 get def a", "/a { b } 0 get def /b { a } 0 get def a", "/a { b } 0 get def /b { c } 0 get def /c { a } 0 get def a 1",
+	// arrays with more elements than the operand stack holds, unpacked by a loop with an empty body
+	"600 array {} forall", "502 array {} forall 1", "65536 array {} forall", "501 string {} forall", "[ 1 1 498 {} for ] {} forall 1 2 3", "600 array { } forall count",
 	"/f { f f } def f", "/a { b } def /b { a } def a", "{ { { { { { { { { { 1 } exec } exec } exec } exec } exec } exec } exec } exec } exec } exec",
 }
 
@@ -370,7 +375,7 @@ func suiteBudget(o *suiteOut, r *rng, tier string, n int) {
 	// an eexec section inside a checked file is not checked
 	for hi, h := range [][]string{
 		{"%!PS\n1 2", "3 4 mul", "xyz"}, {"xyz", "%!PS\n1", "2"}, {"%!", "", "5"}, {"", "%!PS\n7", "8 9"}, {"%", "%!\n1", "(a) 1 add", "2"},
-		{"%!PS\ncurrentfile eexec 00000000", "1"}, {"7 8", "%!\n9"},
+		{"%!PS\ncurrentfile eexec 00000000", "1"}, {"7 8", "%!\n9"}, {"xyz", "1 2 add", "%!PS\n3", "4"}, {"", "", "5", "%!\n6"}, {"x", "y", "z"}, {"%", "%", "%!\n1"},
 	} {
 		intp := postscript.NewInterpreter()
 		intp.CheckStart = true
@@ -446,6 +451,7 @@ func suiteBudget(o *suiteOut, r *rng, tier string, n int) {
 // ---------------------------------------------------------------- hostile
 
 var hostileFixed = []string{
+	"/a { a } 0 get def a", "/a { b } 0 get def /b { a } 0 get def a", "/x { y } 0 get def /y { z } 0 get def /z { x } 0 get def x",
 	// names with characters the serialiser cannot write (taken from systemdict: `<<`, `>>`, `[`, `]`; strings used as
 	// keys) as operands of the operators that mention the name in their error message
 	"systemdict { pop exit } forall findfont", "systemdict { pop exit } forall /Font findresource", "systemdict { pop exit } forall /CMap findresource",
